@@ -19,6 +19,8 @@ TEXT_CLASSES = {
     'astral': [u'中文', u'\U0001f600 ok'],
     'edges': [u'', u' lead', u'trail ', u' '],
     'backslash': [u'a\\b', u'\\\\', u'c\\', u'\\n'],
+    # every character str.splitlines() breaks at besides CR / LF, and a cell that starts with the BOM character
+    'linesep': [u'a\x85b', u'c\u2028d', u'e\u2029f', u'g\x0bh\x0ci', u'\ufeffj', u'k\x1c\x1d\x1el'],
 }
 LATIN1_OK = ('plain', 'delims', 'quotes', 'newlines', 'nul', 'nonascii', 'edges', 'backslash')
 # classes without delimiter / quote / line-break characters: the only ones QUOTE_NONE (no escapechar) can write at all
